@@ -109,7 +109,7 @@ def parse_vspec(path):
                 else:
                     raise SpecError(f'{path}:{i+1}: bad token {rest[k]}')
             u.parts.append(('item', it)); cur_item = it; i += 1
-        elif d in ('@sig', '@loop', '@loopend', '@before', '@after', '@closure', '@ret', '@tail', '@drop'):
+        elif d in ('@sig', '@loop', '@loopend', '@before', '@after', '@closure', '@ret', '@tail', '@drop', '@split_or_arm'):
             if cur_item is None: raise SpecError(f'{path}:{i+1}: {d} outside @item')
             a = Ann(kind=d[1:], line=i + 1)
             rest = ln[len(d):].strip()
@@ -121,11 +121,11 @@ def parse_vspec(path):
                 for p in ps[1:]:
                     kk, vv = p.split('='); a.opts[kk] = vv
                 a.text, i = take_block(i + 1)
-            elif d in ('@before', '@after', '@drop'):
+            elif d in ('@before', '@after', '@drop', '@split_or_arm'):
                 m = re.match(r'<<(.*)>>\s*$', rest)
                 if not m: raise SpecError(f'{path}:{i+1}: {d} needs <<anchor>>')
                 a.arg = m.group(1)
-                if d == '@drop':
+                if d in ('@drop', '@split_or_arm'):
                     i += 1
                 else:
                     a.text, i = take_block(i + 1)
@@ -225,7 +225,7 @@ def find_item(rel, kind, sel):
     raise SpecError(f'unknown item kind {kind}')
 
 
-KEEP_DERIVES = {'Clone', 'Copy', 'PartialEq', 'Eq'}
+KEEP_DERIVES = {'Clone', 'Copy', 'PartialEq', 'Eq', 'Default', 'PartialOrd', 'Ord', 'Hash'}
 
 
 class Text:
@@ -398,6 +398,24 @@ def find_loops(tx: Text, lo, hi):
     return res
 
 
+def closure_braces(tx, hdr_end):
+    """Verus wants a braced body on a closure that carries `ensures`.  If the body following the header
+    (byte offset hdr_end) is a bare expression, return the two insertions that wrap it in `{ }`."""
+    ct = tx.ct
+    k = next(i for i, t in enumerate(ct) if t.start >= hdr_end)
+    if ct[k].kind == 'punct' and ct[k].text == '{':
+        return []
+    j = k
+    while j < len(ct):
+        t = ct[j]
+        if t.kind == 'punct' and t.text in rl.OPEN:
+            j = rl.match_close(ct, j) + 1; continue
+        if t.kind == 'punct' and t.text in (')', ']', '}', ',', ';'):
+            break
+        j += 1
+    return [(ct[k].start, '{ '), (ct[j - 1].end, ' }')]
+
+
 def label_lines(text, labels, base_line, region):
     """Replace [Cxx.label] markers by comments and record label -> line range within text."""
     out_lines = []
@@ -425,6 +443,7 @@ class Gen:
         self.labels = []       # {label, line0, line1, region}
         self.dropped = []      # rewrite log
         self.sources = []      # functions under contract: file:lines sha
+        self.inject_false = None   # vacuity self-test: region name whose body gets `assert(false)` at its end
 
     def emit(self, text):
         self.out.append(text)
@@ -523,6 +542,27 @@ class Gen:
                 kw, ob = loops[n - 1]
                 if 'kw' in a.opts and ct[kw].text != a.opts['kw']:
                     raise SpecError(f'LOST-ANCHOR: {region}: loop {n} is `{ct[kw].text}`, expected `{a.opts["kw"]}`')
+                if a.opts.get('desugar') == 'index':
+                    # R8: `for PAT in &mut EXPR { BODY }` (EXPR a VecDeque/Vec place)  ==>
+                    #     { let mut __i: usize = 0; while __i < EXPR.len() INV { let PAT = &mut EXPR[__i]; BODY __i += 1; } }
+                    # IterMut yields &mut to elements 0..len in index order, each once; the length cannot change
+                    # inside the body because the collection is mutably borrowed by the iterator.
+                    j = kw + 1
+                    while not (ct[j].kind == 'id' and ct[j].text == 'in'):
+                        if ct[j].text in ('(', '['): j = rl.match_close(ct, j)
+                        j += 1
+                    pat = src[ct[kw + 1].start:ct[j - 1].end]
+                    if not (ct[j + 1].text == '&' and ct[j + 2].text == 'mut'):
+                        raise SpecError(f'LOST-ANCHOR: {region}: loop {n} is not `for PAT in &mut EXPR`')
+                    expr = src[ct[j + 3].start:ct[ob - 1].end]
+                    iv = a.opts.get('var', '__i')
+                    tx.edit(ct[kw].start, ct[ob].start,
+                            f'{{ let mut {iv}: usize = 0; while {iv} < {expr}.len()', 'R8', 'for-in-&mut desugared to index loop')
+                    pending_inserts.append((ct[ob].start, '\n' + a.text.rstrip() + '\n', 'loop'))
+                    pending_inserts.append((ct[ob].end, f' let {pat} = &mut {expr}[{iv}];', 'R8'))
+                    pending_inserts.append((ct[rl.match_close(ct, ob)].start, f' {iv} += 1; ', 'R8'))
+                    pending_inserts.append((ct[rl.match_close(ct, ob)].end, ' }', 'R8'))
+                    continue
                 if 'binder' in a.opts:
                     # for PAT in EXPR  ->  for PAT in binder: EXPR
                     j = kw + 1
@@ -560,10 +600,14 @@ class Gen:
                     raise SpecError(f'{region}: @closure must rewrite a closure header only')
                 pos = body_s + body.index(a.arg)
                 tx.edit(pos, pos + len(a.arg), a.arg2, 'R3', 'closure header annotated')
+                for (bp, btxt) in closure_braces(tx, pos + len(a.arg)):
+                    pending_inserts.append((bp, btxt, 'closure-brace'))
             elif a.kind == 'drop':
                 self.apply_drop(tx, a, fp['bopen'], fp['bclose'])
-        if it.as_name:
-            pass
+            elif a.kind == 'split_or_arm':
+                self.apply_split_or_arm(tx, a, region)
+        if self.inject_false == region:
+            pending_inserts.append((ct[fp['bclose']].start, '\n    proof { assert(false); } // vacuity self-test\n', 'selftest'))
         if 'async' in it.opts or any(t.kind == 'id' and t.text == 'async' for t in ct[:fp['fn']]):
             for t in ct[:fp['fn']]:
                 if t.kind == 'id' and t.text == 'async':
@@ -604,6 +648,82 @@ class Gen:
                              'props': it.props, 'src': f'{it.file}:{l0}-{l1}', 'sha': sha, 'fn': fkey})
         self.sources.append({'fn': fkey, 'src': f'{it.file}:{l0}-{l1}', 'sha256': sha})
         self.dropped += tx.log
+
+    def apply_split_or_arm(self, tx, a, region):
+        """R9: `P1 | P2 if G => BODY` ==> `P1 if G => BODY P2 if G => BODY`.  This is Rust's own semantics
+        for an or-pattern with a guard (the guard is evaluated per alternative, in order); Verus does not
+        accept the combined form.  The anchor is the first alternative's text up to the `|`."""
+        ct = tx.ct
+        src = tx.src
+        s_all = src[tx.start:tx.end]
+        # anchor = whitespace-normalised arm header prefix "P1 | P2 if"
+        norm = lambda x: re.sub(r'\s+', ' ', x).strip()
+        want = norm(a.arg)
+        hits = []
+        for i, t in enumerate(ct):
+            if t.kind == 'punct' and t.text == '=' and i + 1 < len(ct) and ct[i + 1].text == '>' and ct[i + 1].start == t.end:
+                # walk back to arm start: previous ',' '{' or '}' at same depth
+                j = i - 1
+                depth = 0
+                while j >= 0:
+                    tj = ct[j]
+                    if tj.kind == 'punct' and tj.text in rl.CLOSE: depth += 1
+                    elif tj.kind == 'punct' and tj.text in rl.OPEN:
+                        if depth == 0: break
+                        depth -= 1
+                    elif tj.kind == 'punct' and tj.text == ',' and depth == 0:
+                        break
+                    j -= 1
+                # `}` of a previous block-bodied arm without comma also ends an arm
+                k = i - 1; depth = 0; last_close = None
+                while k > j:
+                    tk = ct[k]
+                    if tk.kind == 'punct' and tk.text in rl.CLOSE:
+                        if depth == 0 and tk.text == '}': last_close = k; break
+                        depth += 1
+                    elif tk.kind == 'punct' and tk.text in rl.OPEN: depth -= 1
+                    k -= 1
+                a0 = (last_close if last_close is not None else j) + 1
+                header = norm(src[ct[a0].start:t.start])
+                if header == want:
+                    hits.append((a0, i))
+        if len(hits) != 1:
+            raise SpecError(f'LOST-ANCHOR: {region}: or-arm <<{a.arg}>> found {len(hits)} times')
+        a0, arrow = hits[0]
+        # split pattern / guard
+        g = None; depth = 0; bars = []
+        for k in range(a0, arrow):
+            tk = ct[k]
+            if tk.kind == 'punct' and tk.text in rl.OPEN: depth += 1
+            elif tk.kind == 'punct' and tk.text in rl.CLOSE: depth -= 1
+            elif depth == 0 and tk.kind == 'id' and tk.text == 'if' and g is None: g = k
+            elif depth == 0 and tk.kind == 'punct' and tk.text == '|' and g is None: bars.append(k)
+        if g is None or not bars:
+            raise SpecError(f'LOST-ANCHOR: {region}: arm <<{a.arg}>> is not `P1 | P2 if G`')
+        guard = src[ct[g].start:ct[arrow].start].strip()
+        alts = []
+        prev = a0
+        for b in bars + [g]:
+            alts.append(src[ct[prev].start:ct[b - 1].end].strip()); prev = b + 1
+        # body
+        bstart = arrow + 2
+        if ct[bstart].text == '{':
+            bend = rl.match_close(ct, bstart)
+            body = src[ct[bstart].start:ct[bend].end]
+            end_idx = bend
+            if ct[bend + 1].text == ',': end_idx = bend + 1
+        else:
+            k = bstart; depth = 0
+            while True:
+                tk = ct[k]
+                if tk.kind == 'punct' and tk.text in rl.OPEN: k = rl.match_close(ct, k)
+                elif tk.kind == 'punct' and tk.text == ',': break
+                elif tk.kind == 'punct' and tk.text == '}': k -= 1; break
+                k += 1
+            body = src[ct[bstart].start:ct[k - 1].end if ct[k].text == ',' else ct[k].end] + ','
+            end_idx = k
+        repl = '\n'.join(f'{alt} {guard} => {body}' for alt in alts)
+        tx.edit(ct[a0].start, ct[end_idx].end, repl, 'R9', 'or-pattern with guard split into one arm per alternative')
 
     def apply_drop(self, tx, a, lo, hi):
         """@drop <<text>>: delete one statement-level occurrence (logged as R2x).  Only allowed for
@@ -706,8 +826,12 @@ class Gen:
                     raise SpecError(f'LOST-ANCHOR: {region}: closure header <<{a.arg}>> occurs {b.count(a.arg)} times')
                 pos = bs + b.index(a.arg)
                 sub.edits.append((pos, pos + len(a.arg), a.arg2))
+                for (bp, btxt) in closure_braces(sub, pos + len(a.arg)):
+                    inserts.append((bp, btxt))
             elif a.kind == 'drop':
                 self.apply_drop(sub, a, 0, 0)
+        if self.inject_false == region:
+            inserts.append((sct[fp['bclose']].start, '\n    proof { assert(false); } // vacuity self-test\n'))
         MARK = '\x00%d\x00'
         inserts.sort(key=lambda x: x[0])
         for n_, (pos, text) in enumerate(inserts):
@@ -734,9 +858,13 @@ class Gen:
 
     def build(self):
         u = self.u
-        self.emit('#![allow(unused_imports, dead_code, unused_variables, unused_mut, unused_parens, non_snake_case, unused_assignments, unreachable_code, unused_braces, non_camel_case_types, private_interfaces)]\n')
+        self.emit('#![allow(unused_macros, unused_imports, dead_code, unused_variables, unused_mut, unused_parens, non_snake_case, unused_assignments, unreachable_code, unused_braces, non_camel_case_types, private_interfaces)]\n')
         self.emit('#![feature(allocator_api)]\n')
         self.emit('use vstd::prelude::*;\nuse std::collections::VecDeque;\n')
+        # assert_eq!/assert_ne! expand to core::panicking internals Verus rejects; they are re-read as
+        # assert!(a == b) / assert!(a != b) (same condition, message dropped).
+        self.emit('macro_rules! assert_ne { ($a:expr, $b:expr $(,)?) => { assert!($a != $b) }; ($a:expr, $b:expr, $($t:tt)+) => { assert!($a != $b) }; }\n')
+        self.emit('macro_rules! assert_eq { ($a:expr, $b:expr $(,)?) => { assert!($a == $b) }; ($a:expr, $b:expr, $($t:tt)+) => { assert!($a == $b) }; }\n')
         self.emit('verus! {\n')
         self.emit('pub mod pre {\nuse vstd::prelude::*;\nuse std::collections::VecDeque;\n')
         bnames = []
@@ -772,10 +900,11 @@ class Gen:
         return ''.join(self.out)
 
 
-def generate(unit_name):
+def generate(unit_name, inject_false=None):
     path = os.path.join(VERIF, 'specs', 'units', unit_name + '.vspec')
     u = parse_vspec(path)
     g = Gen(u)
+    g.inject_false = inject_false
     text = g.build()
     return u, g, text
 
